@@ -1,5 +1,7 @@
 """A *world*: one live instance of a generated program plus everything the simulator owns about it —
 event log, call counters, fault plan, backend fault script, process-global snapshots."""
+import os as _os
+
 import contextlib
 import copy
 import logging
@@ -104,6 +106,10 @@ def global_state_guard():
             if k not in nlocks:
                 del lock_table[k]
         rt.CUR = None
+
+
+_os.environ["LABSIM_E"] = "envval"  # (what '{@env.LABSIM_E}' resolves to; LABSIM_UNSET is never set)
+_os.environ.pop("LABSIM_UNSET", None)
 
 
 class World:
